@@ -1238,6 +1238,10 @@ def r_lock_order(e, R):
                 for c in calls_in(n):
                     ar = e._acq_rel(f, c)
                     if ar and ar[0] == "acq" and _is_lock(e, ar[1]):
+                        # taking a lock this very function has just created (a local variable whose only definition is the
+                        # allocation, e.g. the exit lock of a worker about to be started) cannot block: nobody else has it yet
+                        if _fresh_lock(e, f, c, ar[1]):
+                            continue
                         toks.append(ar[1])
             for t in toks:
                 for h in held[n] | eh:
@@ -1312,7 +1316,7 @@ def r_lock_order(e, R):
                 elif n.kind == "stmt":
                     for c in calls_in(n):
                         ar = e._acq_rel(f, c)
-                        if ar and ar[0] == "acq" and _is_lock(e, ar[1]):
+                        if ar and ar[0] == "acq" and _is_lock(e, ar[1]) and not _fresh_lock(e, f, c, ar[1]):
                             toks.append(ar[1])
                 for t in toks:
                     if role == "WORKER" and t <= a.exit_locks:
@@ -1353,6 +1357,16 @@ def r_lock_order(e, R):
     R.info["wait_for_nodes"] = len({x for k in edges for x in k})
     if len(edges) < 8:
         raise AnalysisError(f"R-LOCK-ORDER: only {len(edges)} wait-for edges found (floor 8)")
+
+
+def _fresh_lock(e, f, c, tok):
+    """the acquire call c takes a lock that this function has just created (receiver = a local variable, not a parameter, whose only
+    definitions are allocations in f): nobody else has it yet, the acquisition cannot block."""
+    rv = c.func.value if isinstance(c.func, ast.Attribute) else None
+    if isinstance(rv, ast.Name) and rv.id in f.locals and rv.id not in f.params:
+        defs = e.local_defs(f, rv.id)
+        return bool(defs) and all(isinstance(d, ast.Call) for d in defs) and all(e.anchors.alloc_func(o) == f.qualname for o in tok)
+    return False
 
 
 def _reentrant(tok):
